@@ -168,6 +168,49 @@ theorem deferred_once_releases_exactly_once (u : AddUnlock) (hd : u.deferred = t
 theorem hooks_alone_leave_mutex_locked :
     unlockCalls { deferred := false, afterCommit := true, onRollback := true, once := false } .noTransaction = 0 := by decide
 
+/-- the gossip manager's peer table is keyed by the same expression wherever it is read, written or deleted from -/
+theorem fact_gossip_peer_table_keys :
+    Facts.C07.gossipPeerTableKeys =
+      ["GossipReceived:index:transportPeer.Key()", "PeerConnected:index:transportPeer.Key()", "PeerConnected:index:transportPeer.Key()",
+       "PeerDisconnected:index:transportPeer.Key()", "PeerDisconnected:delete:transportPeer.Key()"] := by decide
+
+/-- `PeerDisconnected` removes the peer's gossip queue … -/
+theorem disconnect_removes_queue (n : Node) (key : Nat) :
+    (connChange n key .disconnect).queues.any (fun q => q.peer == key) = false := by
+  simp only [connChange]
+  rw [List.any_eq_false]
+  intro q hq
+  have := (List.mem_filter.mp hq).2
+  simpa using this
+
+theorem connect_of_no_queue (m : Node) (key : Nat) (h : m.queues.any (fun q => q.peer == key) = false) :
+    (connChange m key .connect).queues = m.queues ++ [{ peer := key, xor := xorOf m.dag, clock := lcOf m.dag }] := by
+  have hq : (setConnected m key true).queues = m.queues := rfl
+  have hd : (setConnected m key true).dag = m.dag := rfl
+  simp only [connChange, hq, hd, h, Bool.false_eq_true, if_false]
+
+/-- … so **a peer that reconnects gets a fresh gossip queue** (current XOR and clock, nothing queued): gossip to it resumes -/
+theorem reconnect_gets_fresh_queue (n : Node) (key : Nat) :
+    ({ peer := key, xor := xorOf n.dag, clock := lcOf n.dag } : PeerQueue) ∈
+      (connChange (connChange n key .disconnect) key .connect).queues := by
+  rw [connect_of_no_queue _ key (disconnect_removes_queue n key)]
+  exact List.mem_append_right _ (List.mem_singleton.mpr rfl)
+
+/-- connect ∘ disconnect is the identity on the peer table: a connection that comes and goes leaves no entry behind -/
+theorem connect_then_disconnect_leaves_no_entry (n : Node) (key : Nat)
+    (hnew : n.queues.any (fun q => q.peer == key) = false) :
+    (connChange (connChange n key .connect) key .disconnect).queues = n.queues := by
+  have hc := connect_of_no_queue n key hnew
+  rw [List.any_eq_false] at hnew
+  have hkeep : n.queues.filter (fun q => q.peer != key) = n.queues := by
+    apply List.filter_eq_self.mpr
+    intro q hq'
+    have := hnew q hq'
+    simpa using this
+  show List.filter (fun q => q.peer != key) (connChange n key .connect).queues = n.queues
+  rw [hc, List.filter_append, hkeep]
+  simp
+
 /-- the chunk size accounting of the source: room = message limit − message overhead; every transaction counts its payload,
     its data and the per-transaction overhead; the same limit is what the gRPC client and server enforce -/
 theorem fact_chunk_accounting :
